@@ -139,7 +139,11 @@ func allIdx(n int) []int {
 }
 
 func judge(c *mc.Ctx, family, prog string, kinds map[string]bool) mc.Verdict {
-	pr := psrun.NewPairBudget(opTable, 3000, 1200)
+	return judgeBudget(c, family, prog, kinds, 3000, 1200)
+}
+
+func judgeBudget(c *mc.Ctx, family, prog string, kinds map[string]bool, implOps, modelSteps int) mc.Verdict {
+	pr := psrun.NewPairBudget(opTable, implOps, modelSteps)
 	if r := pr.Step(preamble); !r.OK || r.Skipped {
 		return mc.Fail("C03:harness:preamble", r.Detail)
 	}
@@ -247,6 +251,105 @@ func positionsFamily(budget time.Duration) mc.Family {
 	}
 }
 
+// loopOperandsFamily: the numeric operands of for and repeat and the container of
+// forall, each over a small complete grid, with bodies that end the loop, let
+// it run, or use the loop variable.
+func loopOperandsFamily(budget time.Duration) mc.Family {
+	nums := []string{"-1", "0", "1", "2", "3", "0.5", "-0.5", "1.5"}
+	bodies := []string{"", "exit", "pop", "pop exit", "dup", "count 6 ge {exit} if", "{exit} loop", "pop 1 {exit} repeat"}
+	var progs, kinds []string
+	for _, i := range nums {
+		for _, st := range nums {
+			for _, l := range nums {
+				for _, b := range bodies {
+					progs = append(progs, fmt.Sprintf("%s %s %s {%s} for count", i, st, l, b))
+					kinds = append(kinds, "for")
+				}
+			}
+		}
+	}
+	for _, n := range []string{"-1", "0", "1", "2", "3", "7", "0.5", "(a)", "true"} {
+		for _, b := range bodies {
+			progs = append(progs, fmt.Sprintf("9 %s {%s} repeat count", n, b))
+			kinds = append(kinds, "repeat")
+		}
+	}
+	for _, cont := range []string{"[]", "[4]", "[4 5]", "[4 5 6]", "[[1] {2} (x)]", "()", "(a)", "(ab\xe9)", "<< >>", "<< /a 1 >>", "1 dict", "3 string", "2 array", "{1 2}", "5", "/nm"} {
+		for _, b := range bodies {
+			progs = append(progs, fmt.Sprintf("9 %s {%s} forall count", cont, b))
+			kinds = append(kinds, "forall")
+		}
+	}
+	return mc.Family{
+		Name: "loop-operands", Items: len(progs), Budget: budget,
+		Rule: fmt.Sprintf("`i s l {body} for` for every (i, s, l) in %v^3 (incl. increment 0 and reals), `9 n {body} repeat` for 9 counts incl. negative and non-integers, `9 c {body} forall` for 16 containers (arrays, strings with a byte >= 0x80, dictionaries with <= 1 entry, procedures, non-containers), each with %d bodies (empty, exit, pop, pop exit, dup, exit when the stack holds 6, an inner loop that exits, an inner repeat that exits); programs that do not end within the reference's step budget are skipped; non-trivial = the reference defines the outcome", nums, len(bodies)),
+		Body: func(c *mc.Ctx, item int) mc.Verdict {
+			return judge(c, "loop-operands", progs[item], map[string]bool{kinds[item]: true})
+		},
+		Describe: func(item int) string { return progs[item] },
+		CrashKey: func(item int) string { return "C03:crash:loop-operands" },
+	}
+}
+
+// repetitionFamily: control flow keeps working however often it has been used
+// in one interpreter: every stack-neutral body is run N times by repeat, by for
+// and by N separate Execute calls on the same interpreter, for N around and
+// beyond every small limit of the interpreter (100 execution levels, 20
+// dictionaries), and then once more with a deep nest.
+func repetitionFamily(budget time.Duration) mc.Family {
+	bodies := []string{
+		"{exit} loop", "1 {exit} repeat", "0 1 5 {pop exit} for", "[1 2] {pop exit} forall", "{ {exit} loop } exec",
+		"/g {{exit} loop} def g", "f pop", "{1 pop} exec", "true {1 pop} if", "false {1} {2} ifelse pop", "1 dict begin end",
+		"{ { { {exit} loop } exec } exec } exec", "v pop", "/w {v} def w pop", "{ {1 exit 2} loop pop } exec", "2 {{exit} loop} repeat",
+		"{{{{{{{{{{1}exec}exec}exec}exec}exec}exec}exec}exec}exec}exec pop",
+	}
+	counts := []int{19, 20, 21, 99, 100, 101, 102, 150, 400}
+	tail := " { { { {7} exec } exec } exec } exec f count"
+	modes := []string{"repeat", "for", "calls"}
+	n := len(bodies) * len(counts) * len(modes)
+	return mc.Family{
+		Name: "repetition", Items: n, Budget: budget,
+		Rule: fmt.Sprintf("%d stack-neutral bodies (loops left by exit at every nesting, calls, conditionals, begin/end, ten-deep exec) x N in %v x {`N {body} repeat`, `1 1 N {pop body} for`, N consecutive Execute calls of the body on one interpreter}, followed by a four-deep nest and a call; library and reference compared after every call; non-trivial = the reference defines the outcome", len(bodies), counts),
+		Body: func(c *mc.Ctx, item int) mc.Verdict {
+			body := bodies[item%len(bodies)]
+			cnt := counts[(item/len(bodies))%len(counts)]
+			mode := modes[item/len(bodies)/len(counts)]
+			kinds := map[string]bool{"exit": strings.Contains(body, "exit"), mode: true}
+			switch mode {
+			case "repeat":
+				return judgeBudget(c, "repetition", fmt.Sprintf("%d {%s} repeat%s", cnt, body, tail), kinds, 60000, 60000)
+			case "for":
+				return judgeBudget(c, "repetition", fmt.Sprintf("1 1 %d {pop %s} for%s", cnt, body, tail), kinds, 60000, 60000)
+			}
+			pr := psrun.NewPairBudget(opTable, 60000, 60000)
+			if r := pr.Step(preamble); !r.OK || r.Skipped {
+				return mc.Fail("C03:harness:preamble", r.Detail)
+			}
+			for k := 0; k <= cnt; k++ {
+				prog := body
+				if k == cnt {
+					prog = tail
+				}
+				r := pr.Step(prog)
+				c.Step()
+				if !r.OK {
+					v := mc.Fail(fmt.Sprintf("C03:repetition:%s:{calls}", r.Class), fmt.Sprintf("call %d of %d on one interpreter, program `%s` (after `%s`): %s", k+1, cnt+1, prog, preamble, r.Detail))
+					v.Render = fmt.Sprintf("%d x `%s`", cnt, body)
+					return v
+				}
+				if r.Skipped {
+					return mc.Pass("skipped", false)
+				}
+			}
+			return mc.Pass("calls-ok", true)
+		},
+		Describe: func(item int) string {
+			return fmt.Sprintf("%s x %d (%s)", bodies[item%len(bodies)], counts[(item/len(bodies))%len(counts)], modes[item/len(bodies)/len(counts)])
+		},
+		CrashKey: func(item int) string { return "C03:crash:repetition" },
+	}
+}
+
 func dictstackFamily(budget time.Duration) mc.Family {
 	var progs []string
 	probes := []string{"q", "/q load", "/q where {/q get} {-1} ifelse", "currentdict /q known", "/q where {pop 1} {0} ifelse count"}
@@ -349,6 +452,8 @@ func main() {
 				shapesFamily("shapes-reduced-alphabet", size+1, depth, smallAtoms, smallConstructs, budget),
 				positionsFamily(budget),
 				dictstackFamily(budget),
+				loopOperandsFamily(budget),
+				repetitionFamily(budget),
 			}
 		},
 	})
